@@ -22,7 +22,7 @@ fn full_alphabet(p: Proto, quick: bool) -> Alphabet {
     Alphabet {
         keys: domains::key_pool(p),
         seeds: if p.is_local() { domains::seeds(p) } else { vec![vec![]] },
-        lengths: if quick { domains::MSG_LENGTHS[..21].to_vec() } else { domains::MSG_LENGTHS.to_vec() },
+        lengths: if quick { domains::quick_lengths() } else { domains::MSG_LENGTHS.to_vec() },
         classes: domains::MSG_CLASSES,
         footers: domains::footers(),
         assertions: if p.has_assertion() { domains::assertions() } else { vec![None] },
